@@ -8,6 +8,6 @@ require (
 	pgregory.net/rapid v1.3.0
 )
 
-require github.com/golang/snappy v0.0.4 // indirect
+require github.com/golang/snappy v0.0.4
 
 replace github.com/syndtr/goleveldb => /repo
